@@ -542,22 +542,79 @@ func (c *Ctx) RuleB(rule string, reach map[*ssa.Function]bool, chain func(*ssa.F
 			trig = "cond"
 		}
 		base := fmt.Sprintf("%s<-%s", s.term, trig)
-		key := ordinalKey(counts, name(s.fn)+":"+base)
-		construct := strings.TrimPrefix(key, name(s.fn)+":")
 		what := fmt.Sprintf("terminator %s must not be reachable with a feasible trigger", s.term)
 		detail := fmt.Sprintf("class=%s: %s", s.class, s.why)
 		if chain != nil {
 			detail += "; reached via " + chain(s.fn)
 		}
-		switch {
-		case s.class == "INFEASIBLE" || s.class == "WRITER":
-			c.R.Add(reportObl(rule, name(s.fn), construct, c.IPos(s.instr), what+" ["+detail+"]", "ok"))
-		case classes != nil && !classes[s.class]:
-			c.R.Infof(rule, name(s.fn), construct, c.IPos(s.instr), "site of another property's class: "+detail)
-		default:
-			c.R.Violf(rule, name(s.fn), construct, c.IPos(s.instr), what, detail)
+		// a site in an unexported helper is attributed to the exported library
+		// functions that reach it, so that extracting a helper around a known
+		// site does not change its identity
+		owners := c.exportedOwners(s.fn)
+		if name(s.fn) != name(owners[0]) || len(owners) > 1 {
+			detail += "; site is in helper " + name(s.fn)
+		}
+		for _, owner := range owners {
+			key := ordinalKey(counts, name(owner)+":"+base)
+			construct := strings.TrimPrefix(key, name(owner)+":")
+			switch {
+			case s.class == "INFEASIBLE" || s.class == "WRITER":
+				c.R.Add(reportObl(rule, name(owner), construct, c.IPos(s.instr), what+" ["+detail+"]", "ok"))
+			case classes != nil && !classes[s.class]:
+				c.R.Infof(rule, name(owner), construct, c.IPos(s.instr), "site of another property's class: "+detail)
+			default:
+				c.R.Violf(rule, name(owner), construct, c.IPos(s.instr), what, detail)
+			}
 		}
 	}
 	c.R.Extra["terminator_sites_in_library"] = len(sites)
 	c.R.Extra["terminator_sites_in_scope"] = classified
+}
+
+// exportedOwners returns the exported library functions/methods from which fn
+// is reached without passing through another exported function (fn itself if
+// it is exported or has no library callers).
+func (c *Ctx) exportedOwners(fn *ssa.Function) []*ssa.Function {
+	isExported := func(f *ssa.Function) bool {
+		return f.Parent() == nil && f.Object() != nil && f.Object().Exported()
+	}
+	top := fn
+	for top.Parent() != nil {
+		top = top.Parent()
+	}
+	if isExported(top) {
+		return []*ssa.Function{top}
+	}
+	cg := c.P.CallGraph()
+	seen := map[*ssa.Function]bool{top: true}
+	queue := []*ssa.Function{top}
+	var out []*ssa.Function
+	for len(queue) > 0 {
+		f := queue[0]
+		queue = queue[1:]
+		n := cg.Nodes[f]
+		if n == nil {
+			continue
+		}
+		for _, e := range n.In {
+			g := e.Caller.Func
+			for g.Parent() != nil {
+				g = g.Parent()
+			}
+			if !c.P.InLib(g) || seen[g] {
+				continue
+			}
+			seen[g] = true
+			if isExported(g) {
+				out = append(out, g)
+			} else {
+				queue = append(queue, g)
+			}
+		}
+	}
+	if len(out) == 0 {
+		return []*ssa.Function{top}
+	}
+	sort.Slice(out, func(i, j int) bool { return name(out[i]) < name(out[j]) })
+	return out
 }
